@@ -17,7 +17,7 @@ import (
 func init() { register("C16", runC16) }
 
 func runC16(c *Check, tier string) {
-	c.Decides = "the formats bind the same field names (struct tags agree across json/yaml/pkl/starlark, the Starlark keyword list equals the starlark tags and every keyword reaches its DTO field); no loader drops a field of the annotation struct it parses; enrichment consumes every DTO field; in first-party loader code an index `len(x)-1` or a constant index is dominated by a length guard on that slice (directly, or at every call site through a slice grown in lock-step); nested Starlark module loads resolve relative to the module; shared loader state is mutex-protected and every loader lock is released on every path."
+	c.Decides = "the formats bind the same field names (struct tags agree across json/yaml/pkl/starlark, the Starlark keyword list equals the starlark tags and every keyword reaches its DTO field); no loader drops a field of the annotation struct it parses; enrichment consumes every DTO field; in first-party loader code an index `len(x)-1` or a constant index is dominated by a length guard on that slice (directly, or at every call site through a slice grown in lock-step); nested Starlark module loads resolve relative to the module; shared loader state is mutex-protected and every loader lock is released on every path; loaders hand the whole file to their decoders (no byte-limited reader)."
 	c.NotDec = "behaviour of the third-party parsers on arbitrary bytes, hangs inside Starlark evaluation, cross-format equality of loaded packages for all inputs."
 	ruleR16a(c)
 	ruleR16b(c)
@@ -26,6 +26,43 @@ func runC16(c *Check, tier string) {
 	ruleR16e(c)
 	ruleR16f(c)
 	ruleR16g(c)
+	ruleR16h(c)
+}
+
+// R16h: a loader hands the BUILD file itself to its decoder. A reader that ends the stream after a fixed
+// number of bytes makes one format silently load a prefix (or fail oddly) where another loads everything.
+func ruleR16h(c *Check) {
+	c.Rule("R16h", "every decoder/reader call of a first-party loader (json/yaml NewDecoder, io.ReadAll, bufio scanners) reads from the opened file itself, not from a byte-limited view of it (io.LimitReader, io.NewSectionReader, io.LimitedReader)", 2)
+	n := 0
+	for _, fn := range c.P.Funcs {
+		if !engine.InPackage(fn, "loading") {
+			continue
+		}
+		for _, s := range engine.SitesIn(fn) {
+			name := engine.CalleeName(s)
+			if !(strings.HasSuffix(name, ".NewDecoder") || name == "io.ReadAll" || name == "bufio.NewScanner" || name == "bufio.NewReader") || len(s.Common().Args) == 0 {
+				continue
+			}
+			n++
+			limited := ""
+			back := c.G.Backward([]Node{s.Common().Args[0]}, func(e *engine.Edge) bool { return e.Via != nil && e.Via.Parent() == fn })
+			for nd := range back.Parent {
+				if call, ok := nd.(*ssa.Call); ok {
+					switch engine.CalleeName(call) {
+					case "io.LimitReader", "io.NewSectionReader", "net/http.MaxBytesReader":
+						limited = engine.CalleeName(call)
+					}
+				}
+				if v, ok := nd.(ssa.Value); ok && strings.HasSuffix(v.Type().String(), "io.LimitedReader") {
+					limited = "io.LimitedReader"
+				}
+			}
+			c.Require(limited == "", "R16h", "whole-file-decoded/"+c.P.FuncName(fn), "the decoder reads the file itself", "the decoder reads through "+limited+": a BUILD file longer than the limit is cut off without an error, so this format loads fewer targets (or fails differently) than the others for the same package", c.P.InstrPos(s))
+		}
+	}
+	if n == 0 {
+		c.Unknown("R16h", "whole-file-decoded", "no decoder/reader call found in the loaders", "-")
+	}
 }
 
 func tagNames(tag string) map[string]string {
